@@ -135,7 +135,12 @@ class SocketTransportSink(ClientMessageSink):
         if deadline:
           timeout = deadline - time.time()
           if timeout < 0:
-            raise gevent.Timeout()
+            # Expired before anything was written: there is nothing on the wire
+            # to abandon, so the connection does not need to be re-established.
+            self._processing = None
+            sink_stack.AsyncProcessResponseMessage(
+              MethodReturnMessage(error=TimeoutError()))
+            return
           gtimeout = gevent.Timeout.start_new(timeout)
         else:
           gtimeout = NoopTimeout()
